@@ -13,6 +13,13 @@
 //verif:replace@C15d (*os.File).WriteString = c15WriteString
 //verif:replace@C15d (*os.File).Write = c15Write
 //verif:replace@C15d (*os.File).Close = c15Close
+//verif:replace@C15e os.OpenFile = c15OpenFile
+//verif:replace@C15e os.Stat = c15Stat
+//verif:replace@C15e os.Rename = c15Rename
+//verif:replace@C15e os.Remove = c15Remove
+//verif:replace@C15e (*os.File).WriteString = c15WriteString
+//verif:replace@C15e (*os.File).Write = c15Write
+//verif:replace@C15e (*os.File).Close = c15Close
 
 package mapr
 
@@ -33,6 +40,25 @@ type c15File struct{ data []byte }
 type c15Handle struct {
 	f      *c15File
 	closed bool
+	app    bool // O_APPEND: every write goes to the current end
+	off    int  // otherwise the handle's own offset
+}
+
+// write puts s where write(2) would: at the end for O_APPEND handles, else at
+// the handle's offset (zero-filling a hole left by another handle's truncation)
+func (h *c15Handle) write(s string) {
+	if h.app {
+		h.off = len(h.f.data)
+	}
+	for len(h.f.data) < h.off {
+		h.f.data = append(h.f.data, 0)
+	}
+	end := h.off + len(s)
+	if end > len(h.f.data) {
+		end = len(h.f.data)
+	}
+	h.f.data = append(h.f.data[:h.off:h.off], append([]byte(s), h.f.data[end:]...)...)
+	h.off += len(s)
 }
 
 var c15FS map[string]*c15File
@@ -93,7 +119,7 @@ func c15DoOpen(name string, flag int) (*os.File, error) {
 		f.data = nil
 	}
 	h := new(os.File)
-	c15Open[h] = &c15Handle{f: f}
+	c15Open[h] = &c15Handle{f: f, app: flag&os.O_APPEND != 0}
 	return h, nil
 }
 
@@ -109,7 +135,7 @@ func (i c15Info) Sys() interface{}   { return nil }
 func c15Stat(name string) (os.FileInfo, error) {
 	f, ok := c15FS[name]
 	if !ok {
-		return nil, errors.New("no such file")
+		return nil, &fs.PathError{Op: "stat", Path: name, Err: fs.ErrNotExist}
 	}
 	return c15Info{int64(len(f.data))}, nil
 }
@@ -145,11 +171,11 @@ func c15WriteString(fd *os.File, s string) (int, error) {
 		// killed around the write: a single write(2) to a regular file is not torn by a
 		// kill (it is not interruptible half-way); it either happened or it did not
 		if verifrt.Bool("write-took-effect") {
-			h.f.data = append(h.f.data, s...)
+			h.write(s)
 		}
 		panic(c15Crash{})
 	}
-	h.f.data = append(h.f.data, s...)
+	h.write(s)
 	return len(s), nil
 }
 
